@@ -603,8 +603,12 @@ def run(ctx):
             viol('the likelihood driver raised %s' % r['error'], c, r)
             continue
         if c['stream'] == 'foldmismatch':
-            # a folded model against unfolded data is refused (Spectrum arithmetic raises ValueError)
-            ok = all(isinstance(r.get(k), dict) and 'ValueError' in r[k].get('error', '') for k in ('ll', 'llpb', 'llm', 'lin', 'ans'))
+            # a folded model against unfolded data is refused: every likelihood / residual entry point raises.  (Spectrum
+            # arithmetic raises ValueError; when no entry is unmasked in both, ll_multinom fails earlier, on the masked
+            # scaling, with AttributeError -- still a refusal, and the property does not name the exception: demanding
+            # ValueError there was a false alarm of this check, seed 11, case 241.)
+            ok = all(isinstance(r.get(k), dict) and r[k].get('error') for k in ('ll', 'llpb', 'llm', 'lin', 'ans'))
+            ctx.count('foldmismatch refused by ' + ','.join(sorted({str(r[k].get('error', '')).split(':')[0] for k in ('ll', 'llpb', 'llm', 'lin', 'ans') if isinstance(r.get(k), dict)})))
             ctx.case(signature=None)
             ctx.obligation('case %d: folded model with unfolded data is refused by ll / ll_multinom / residuals' % c['id'], ok, 'predicate',
                            '' if ok else repr({k: r.get(k) for k in ('ll', 'llm', 'lin', 'ans')})[:300])
